@@ -40,18 +40,20 @@ theorem getDefinition_mem (defs : List QuoteDef) (q : Str) (d : QuoteDef) (h : q
 
 /-- **Quote tags nest properly, whatever the text and the quote table.** -/
 theorem quote_fragments_form_a_tree (defs : List QuoteDef) :
-    ∀ fuel text s, wp (fragQuoteLoop defs fuel text) (fun frags _ => QTree defs frags) s := by
+    ∀ fuel depth text s, wp (fragQuoteLoop defs fuel depth text) (fun frags _ => QTree defs frags) s := by
   intro fuel
   induction fuel with
-  | zero => intro text s; unfold fragQuoteLoop; exact wp_raise _
+  | zero => intro depth text s; unfold fragQuoteLoop; exact wp_raise _
   | succ n ih =>
-    intro text s
+    intro depth text s
     unfold fragQuoteLoop
-    wp_go_with ih
+    repeat (any_goals (first | wp_step | (refine wp_mono (ih _ _ _) ?_; intro _ _ _) | wp_skip_call))
     all_goals first
       | exact .text _
       | exact .quoteVerbatim _ (getDefinition_mem _ _ _ (by assumption)) (by simp_all) _ _ _ (by assumption)
       | exact .quoteSpan _ (getDefinition_mem _ _ _ (by assumption)) (by simp_all) _ _ _ (by assumption) (by assumption)
+      -- at the nesting limit the quoted text is one text fragment
+      | exact .quoteSpan _ (getDefinition_mem _ _ _ (by assumption)) (by simp_all) _ _ _ (.text _) (by assumption)
 
 /-- **A delimited block writes its open tag, its content and its close tag, or (attribute-less division) only its
     content**: the three writes are adjacent and in this order. -/
